@@ -4,7 +4,7 @@
  usage: confirm_seeded.py <prop>/<mN> ...   (reads /verif/seeded/_staging/<prop>/<mN>.diff and <mN>_demo.rs)"""
 import sys, os, subprocess, json, shutil, re
 WT = '/tmp/confirm_wt'
-ST = '/verif/seeded/_staging'
+ST = os.environ.get('STAGING', '/verif/seeded/_staging')
 
 def sh(cmd, cwd=WT, timeout=1800):
     p = subprocess.run(cmd, shell=True, cwd=cwd, stdout=subprocess.PIPE, stderr=subprocess.STDOUT, text=True, timeout=timeout,
